@@ -78,6 +78,28 @@ IDUNDER = {ast.Add: "__iadd__", ast.Sub: "__isub__", ast.Mult: "__imul__", ast.D
 
 
 _MISSING = object()
+_ABSENT = object()        # "no entry in the instance __dict__": the fresh state of a functools.cached_property
+
+
+class ArrFlags:
+    """ndarray.flags: the memory layout / writability of a symbolic array is not determined by the model -- every flag read
+    explores both answers (a fork that is not a condition on the values); setting a flag has no effect on values"""
+
+    def __init__(self, interp, arr):
+        object.__setattr__(self, "_I", interp)
+        object.__setattr__(self, "_known", {})
+
+    def __getattr__(self, name):
+        k = object.__getattribute__(self, "_known")
+        if name not in k:
+            k[name] = bool(object.__getattribute__(self, "_I").choose())
+        return k[name]
+
+    def __setattr__(self, name, value):
+        object.__getattribute__(self, "_known")[name] = bool(value)
+
+    def __getitem__(self, name):
+        return getattr(self, name.lower())
 
 
 class PendingCache:
@@ -116,6 +138,8 @@ class Interp:
         self.np._interp = self
         self.da._interp = self
         A.DIM_ASSUME[0] = lambda a, b: T.cmp_cond("==", a, b) in self.assumed
+        from . import verify as _V
+        _V.CURRENT_INTERP[0] = self       # object comparison asks the class model which fields the CURRENT source still maintains
         self.loop_hooks = {}      # (qualname, ordinal) -> handler
         self.trace_calls = []
         self.h5 = None
@@ -148,6 +172,8 @@ class Interp:
                     decos = [ast.unparse(d) for d in it.decorator_list]
                     if "property" in decos:
                         ci.getters[it.name] = it
+                    elif any(d in ("functools.cached_property", "cached_property") for d in decos):
+                        ci.cached[it.name] = it
                     elif any(d.endswith(".setter") for d in decos):
                         ci.setters[it.name] = it
                     else:
@@ -608,10 +634,13 @@ class Interp:
 
     def lazy_value(self, obj, name, v0, filler):
         """what the filler stores in self.<name> from the object's CURRENT visible state (on a shallow copy), or _MISSING"""
-        cp = Obj(obj.cls, {k: (x.v0 if isinstance(x, PendingCache) else x) for k, x in obj.fields.items()})
-        cp.fields[name] = v0
+        cp = Obj(obj.cls, {k: (x.v0 if isinstance(x, PendingCache) else x) for k, x in obj.fields.items() if not (isinstance(x, PendingCache) and x.v0 is _ABSENT)})
         cp.cf = {}
         try:
+            if v0 is _ABSENT:
+                cp.fields.pop(name, None)
+                return self.getattr(cp, name)          # a cached property: what its getter computes (and would store)
+            cp.fields[name] = v0
             self.call_func(filler, [cp], {})
         except (PyRaise, ModelError, Unsupported, KeyError, TypeError, AttributeError):
             return _MISSING
@@ -634,10 +663,27 @@ class Interp:
                 if hasattr(v, "cf"):
                     return
                 names = self.unknown_private_fields(v)
-                if not names:
+                cached = {}
+                seen_c = set()
+
+                def cached_names(c):
+                    if c is None or id(c) in seen_c:
+                        return
+                    seen_c.add(id(c))
+                    for nm_, fd_ in getattr(c, "cached", {}).items():
+                        cached.setdefault(nm_, FuncVal(fd_, c.module, c))
+                    for b in c.bases:
+                        cached_names(self.classes.get(b))
+                cached_names(v.cls)
+                cached = {k: f_ for k, f_ in cached.items() if k not in v.fields}
+                if not names and not cached:
                     v.cf = {}
                     return
                 info = {}
+                for f, getter in cached.items():
+                    # a functools.cached_property: no entry yet, or the value its getter computes from the object's state
+                    info[f] = (_ABSENT, getter)
+                    v.fields[f] = PendingCache(_ABSENT, getter)
                 for f in names:
                     v0 = self.init_constant(v.cls, f)
                     if v0 is _MISSING:
@@ -658,7 +704,10 @@ class Interp:
         """decide the pending cache fields of object v now (from its current state)"""
         for f, val in list(v.fields.items()):
             if isinstance(val, PendingCache) and (only is None or f == only):
-                v.fields[f] = val.v0
+                if val.v0 is _ABSENT:
+                    del v.fields[f]
+                else:
+                    v.fields[f] = val.v0
                 if self.choose():
                     r = self.lazy_value(v, f, val.v0, val.filler)
                     if r is not _MISSING:
@@ -804,10 +853,16 @@ class Interp:
     def call_func(self, f, args, kwargs):
         qn = f.qualname
         self.trace_calls.append(qn)
-        if qn in self.contracts and qn not in self.no_contract:
-            r = self.contracts[qn](self, list(args), dict(kwargs))
-            self.recohere([args, kwargs, r])
-            return r
+        if qn in self.contracts and qn not in self.no_contract and qn not in Interp.global_inline:
+            try:
+                r = self.contracts[qn](self, list(args), dict(kwargs))
+            except TypeError as e:
+                if not any(t in str(e) for t in ("positional argument", "unexpected keyword argument", "required positional")):
+                    raise
+                r = _MISSING     # the callee's signature is no longer the one the contract was written for: its real body runs instead
+            if r is not _MISSING:
+                self.recohere([args, kwargs, r])
+                return r
         node = f.node
         mod = self.modules[f.module.split(".")[-1]]
         local = {}
@@ -861,6 +916,7 @@ class Interp:
         return None
 
     no_contract = frozenset()
+    global_inline = frozenset()      # qualnames whose call-site contracts are switched off (their real bodies run): the inlining re-check of main.py
 
     def class_attr(self, ci, name, seen=None):
         """class-level attribute default (searching the bases), or _MISSING"""
@@ -896,11 +952,14 @@ class Interp:
     # ------------------------------------------------------------------ attributes
     def getattr(self, v, name):
         if isinstance(v, Obj):
+            if name in v.fields and isinstance(v.fields[name], PendingCache):
+                self.settle_caches(v, only=name)
             if name in v.fields:
-                if isinstance(v.fields[name], PendingCache):
-                    self.settle_caches(v, only=name)
                 return v.fields[name]
             if name == "__dict__":
+                if not hasattr(v, "cf") and not getattr(v, "constructed", False) and not getattr(v, "dirty", False):
+                    self.complete_fixture([v])
+                self.settle_caches(v)         # the raw dictionary is handed out: whatever is done to it bypasses the attribute protocol
                 return v.fields
             if name == "__class__":
                 return v.cls
@@ -908,6 +967,13 @@ class Interp:
             if g is not None:
                 fd, owner = g
                 return self.call_func(FuncVal(fd, owner.module, owner), [v], {})
+            g = v.cls.find("cached", name, self.classes)
+            if g is not None:
+                # functools.cached_property: computed on first access, then kept in the instance __dict__ under the same name
+                fd, owner = g
+                val = self.call_func(FuncVal(fd, owner.module, owner), [v], {})
+                v.fields[name] = val
+                return val
             m = v.cls.find("methods", name, self.classes)
             if m is not None:
                 fd, owner = m
@@ -985,6 +1051,8 @@ class Interp:
                 return v.size * 8
             if name == "dot":
                 return lambda o: self.np.dot(v, o)
+            if name == "flags":
+                return ArrFlags(self, v)
             raise Unsupported("ndarray attribute %s" % name)
         if isinstance(v, Poly):
             if name in ("sum", "mean", "item", "copy", "min", "max"):
@@ -1188,7 +1256,16 @@ class Interp:
             if (isinstance(l, (str, type(None))) or isinstance(r, (str, type(None)))):
                 return name == "!="
             if isinstance(l, float) and math.isinf(l) or isinstance(r, float) and math.isinf(r):
-                raise Unsupported("comparison with inf")
+                # real-valued terms denote finite numbers (the floats inf / nan are the only non-finite values of the model);
+                # a symbol declared 'maybe infinite' leaves the comparison undetermined
+                other = r if isinstance(l, float) else l
+                if isinstance(other, Poly) and any(n_ in T.EXTENDED for n_ in other.syms):
+                    raise Unsupported("comparison of a possibly infinite quantity with inf")
+                inf = l if isinstance(l, float) else r
+                lt_inf = inf > 0            # other < +inf ; other > -inf
+                if isinstance(l, float):    # inf OP other
+                    return {"<": not lt_inf, "<=": not lt_inf, ">": lt_inf, ">=": lt_inf, "==": False, "!=": True}[name]
+                return {"<": lt_inf, "<=": lt_inf, ">": not lt_inf, ">=": not lt_inf, "==": False, "!=": True}[name]
             return T.cmp_cond(name, P(l), P(r))
         if isinstance(l, tuple) and isinstance(r, tuple) and name in ("==", "!="):
             if len(l) != len(r):
@@ -1398,7 +1475,10 @@ class Interp:
                 self.assign(g.target, x, sub)
                 if all(self.truth(self.ev(c, sub)) for c in g.ifs):
                     if len(gens) > 1:
-                        out.extend(self.comp_iter(gens[1:], sub, body))
+                        inner = self.comp_iter(gens[1:], sub, body)
+                        if not isinstance(inner, list):
+                            raise Unsupported("nested comprehension whose inner sequence has a symbolic length")
+                        out.extend(inner)
                     else:
                         out.append(body(sub))
             return out
@@ -1596,7 +1676,16 @@ class Interp:
                 self.exec_block(s.finalbody, env)
 
     def ex_With(self, s, env):
-        raise Unsupported("with statement")
+        # context managers without an effect on values: np.errstate / warnings.catch_warnings (floating-point flags and
+        # warnings are not part of the model)
+        for item in s.items:
+            src = ast.unparse(item.context_expr)
+            if not (src.startswith("np.errstate(") or src.startswith("numpy.errstate(") or src.startswith("warnings.catch_warnings(")
+                    or src.startswith("contextlib.suppress()") or src.startswith("contextlib.nullcontext(")):
+                raise Unsupported("with statement (%s)" % src[:40])
+            if item.optional_vars is not None:
+                self.assign(item.optional_vars, None, env)
+        self.exec_block(s.body, env)
 
     def ex_Assign(self, s, env):
         v = self.ev(s.value, env)
